@@ -47,6 +47,9 @@ FUNCS = [('sum', {}), ('prod', {}), ('min', {}), ('max', {}), ('mean', {}), ('me
          ('std', {}), ('std', {'ddof': 1}), ('var', {}), ('var', {'ddof': 1}), ('all', {}), ('any', {}),
          ('loc_min', {}), ('loc_max', {}), ('iloc_min', {}), ('iloc_max', {})]
 CUM = ['cumsum', 'cumprod']
+# (skipna version, propagating version)
+NPF = {'sum': (np.nansum, np.sum), 'prod': (np.nanprod, np.prod), 'min': (np.nanmin, np.min), 'max': (np.nanmax, np.max), 'mean': (np.nanmean, np.mean),
+       'median': (np.nanmedian, np.median), 'std': (np.nanstd, np.std), 'var': (np.nanvar, np.var)}
 NUM = {'int', 'float', 'floatnan', 'allnan'}
 NUMB = NUM | {'bool', 'booltrue'}
 
@@ -204,6 +207,19 @@ def run_case(case, ctx):
             continue
         gv = list(res.values)
         ev = [e[1] for e in exp]
+        # second, independent oracle for plain numeric data: the NumPy function on the column / row values themselves (the per-Series call shares
+        # the reduction front-end with the Frame, so a defect there would be invisible to the first oracle)
+        if set(kinds) <= {'int', 'float', 'floatnan'} and nrows >= 1 and fname in NPF:
+            with np.errstate(all='ignore'):
+                import warnings
+                with warnings.catch_warnings():
+                    warnings.simplefilter('ignore')
+                    nv = [NPF[fname][0 if skipna else 1](np.asarray(p.values, dtype=float), **kw) for p in parts]
+            badn = [j for j, (g, e) in enumerate(zip(gv, nv)) if not close(g, e)]
+            if badn:
+                j = badn[0]
+                ctx.violation(f'{tag}|axis={axis}|skipna={skipna}|differs-from-numpy-on-values|{fl}', **info, label=labels[j], got=norm(gv[j]), expected=norm(nv[j]))
+                continue
         bad = [j for j, (g, e) in enumerate(zip(gv, ev)) if not close(g, e)]
         if bad:
             j = bad[0]
